@@ -1,6 +1,8 @@
 import PhononModel.Lemmas.GridList
 import PhononModel.Lemmas.GridShift
 import PhononModel.Lemmas.GridGeneric
+import PhononModel.Lemmas.GridBZ
+import PhononModel.Lemmas.GridLength
 /-!
 # C09 — symmetry-reduced mesh sampling equals full mesh sampling
 
@@ -133,6 +135,124 @@ theorem reduced_eq_full_of_invariant {K : Type} [CommSemiring K] (G : Mesh) (hx 
   show f (G.q g) = f (G.q i)
   rw [hn, hT, hR R hRm]
 
+/-! ### relocation into the first Brillouin zone (`BrillouinZone.run`, `GridPoints._fit_qpoints_in_BZ`) -/
+
+/-- the relocated q-point differs from the original by a reciprocal lattice vector (for the unimodular change of
+basis `T` certified on the implementation's matrix) -/
+theorem bz_relocation_is_lattice_translation {L : Q33} {T : M3} {tolf : Rat} {q : V3 Rat} {r : BZResult}
+    (h : bzRelocate L T tolf q = .ok r) : ∃ n : IV, r.point = q.addInt n := bz_translate h
+
+/-- it is a shortest representative within the searched window (27 neighbouring lattice points of the reduced
+point), up to the tolerance; the window contains the reduced point itself -/
+theorem bz_relocation_shortest_in_window {L : Q33} {T : M3} {tolf : Rat} {q : V3 Rat} {r : BZResult}
+    (h : bzRelocate L T tolf q = .ok r) :
+    (⟨0, 0, 0⟩ : IV) ∈ searchSpace ∧
+    ∀ g ∈ searchSpace, norm2 (L.mulVec r.point) < norm2 (L.mulVec (T.act ((reduceQ T q).addInt g))) + r.tol :=
+  ⟨by decide, bz_shortest h⟩
+
+/-- the relocation never fails for a unimodular `T` and a positive tolerance -/
+theorem bz_relocation_total (L : Q33) (T : M3) (tolf : Rat) (q : V3 Rat) (hT : T.det = 1 ∨ T.det = -1)
+    (htol : 0 < tolOf L tolf) : ∃ r, bzRelocate L T tolf q = .ok r := by
+  unfold bzRelocate
+  rw [if_pos hT]
+  simp only
+  -- some window point attains the minimum, hence passes the test
+  have hex : ∀ (d : Rat) (l : List IV) (f : IV → Rat), listMin d (l.map f) = d ∨ ∃ g ∈ l, listMin d (l.map f) = f g := by
+    intro d l f
+    induction l generalizing d with
+    | nil => exact Or.inl rfl
+    | cons a l ih =>
+      simp only [List.map_cons, listMin]
+      rcases ih (min d (f a)) with h | ⟨g, hg, h⟩
+      · rcases min_choice d (f a) with hm | hm
+        · left; rw [h, hm]
+        · right; exact ⟨a, List.mem_cons_self, by rw [h, hm]⟩
+      · right; exact ⟨g, List.mem_cons_of_mem _ hg, h⟩
+  have hfind : ∃ g ∈ searchSpace, bzDist L T (reduceQ T q) g <
+      listMin (bzDist L T (reduceQ T q) ⟨0, 0, 0⟩) (searchSpace.map (bzDist L T (reduceQ T q))) + tolOf L tolf := by
+    rcases hex (bzDist L T (reduceQ T q) ⟨0, 0, 0⟩) searchSpace (bzDist L T (reduceQ T q)) with h | ⟨g, hg, h⟩
+    · exact ⟨⟨0, 0, 0⟩, by decide, by rw [h]; linarith⟩
+    · exact ⟨g, hg, by rw [h]; linarith⟩
+  obtain ⟨g, hg, hlt⟩ := hfind
+  cases hf : searchSpace.find? (fun g => decide (bzDist L T (reduceQ T q) g <
+      listMin (bzDist L T (reduceQ T q) ⟨0, 0, 0⟩) (searchSpace.map (bzDist L T (reduceQ T q))) + tolOf L tolf)) with
+  | some g' => exact ⟨_, rfl⟩
+  | none =>
+    have := List.find?_eq_none.mp hf g hg
+    simp only [decide_eq_true_eq] at this
+    exact absurd hlt this
+
+/-- corollary: a periodic function takes the same value on the relocated point, so every weighted sum over
+q-points is unchanged by the relocation -/
+theorem bz_weighted_sum_unchanged {K : Type} [Add K] [Mul K] [OfNat K 0] [NatCast K] (L : Q33) (T : M3) (tolf : Rat)
+    (f : V3 Rat → K) (hT : ∀ q (n : IV), f (q.addInt n) = f q) (w : List Nat) (qs ps : List (V3 Rat))
+    (h : List.Forall₂ (fun q p => ∃ r, bzRelocate L T tolf q = .ok r ∧ r.point = p) qs ps) :
+    weightedSum w (ps.map f) = weightedSum w (qs.map f) := by
+  have : ps.map f = qs.map f := by
+    induction h with
+    | nil => rfl
+    | cons hqp _ ih =>
+      obtain ⟨r, hr, rfl⟩ := hqp
+      obtain ⟨n, hn⟩ := bz_translate hr
+      simp only [List.map_cons, ih, hn, hT]
+  rw [this]
+
+/-! ### `length2mesh` (reciprocal basis lengths as parameters) -/
+
+/-- mesh numbers are at least 1 -/
+theorem length2mesh_ge_one (ℓ : V3 Rat) (len : Rat) (rots : Option (List M3)) :
+    1 ≤ (length2meshOf ℓ len rots).x ∧ 1 ≤ (length2meshOf ℓ len rots).y ∧ 1 ≤ (length2meshOf ℓ len rots).z := by
+  unfold length2meshOf length2mesh
+  simp only [maxI_eq]
+  refine ⟨?_, ?_, ?_⟩ <;> omega
+
+/-- a longer length never gives a smaller mesh number (non-negative reciprocal lengths; equivalence flags of the
+rotations transitive, which holds for a group and is evaluated per case by the check) -/
+theorem length2mesh_mono (ℓ : V3 Rat) (hℓ : 0 ≤ ℓ.x ∧ 0 ≤ ℓ.y ∧ 0 ≤ ℓ.z) {len len' : Rat} (h : len ≤ len')
+    (rots : Option (List M3)) (ht : ∀ rs, rots = some rs → FlagsTransitive (latticeEquiv (rs.map M3.transpose))) :
+    (length2meshOf ℓ len rots).x ≤ (length2meshOf ℓ len' rots).x ∧
+    (length2meshOf ℓ len rots).y ≤ (length2meshOf ℓ len' rots).y ∧
+    (length2meshOf ℓ len rots).z ≤ (length2meshOf ℓ len' rots).z := by
+  obtain ⟨hx, hy, hz⟩ := hℓ
+  have h0 : IV.le ⟨rint (ℓ.x * len), rint (ℓ.y * len), rint (ℓ.z * len)⟩
+      ⟨rint (ℓ.x * len'), rint (ℓ.y * len'), rint (ℓ.z * len')⟩ :=
+    ⟨rint_mono (mul_le_mul_of_nonneg_left h hx), rint_mono (mul_le_mul_of_nonneg_left h hy),
+     rint_mono (mul_le_mul_of_nonneg_left h hz)⟩
+  unfold length2meshOf length2mesh
+  cases rots with
+  | none =>
+    obtain ⟨a, b, c⟩ := h0
+    simp only [maxI_eq] at *
+    refine ⟨?_, ?_, ?_⟩ <;> omega
+  | some rs =>
+    obtain ⟨a, b, c⟩ := alignMesh_mono (ht rs rfl) h0
+    simp only [maxI_eq] at *
+    refine ⟨?_, ?_, ?_⟩ <;> omega
+
+/-- with rotations, mesh numbers agree along symmetry-equivalent axes -/
+theorem length2mesh_symmetric (ℓ : V3 Rat) (len : Rat) (rs : List M3)
+    (ht : FlagsTransitive (latticeEquiv (rs.map M3.transpose))) :
+    let e := latticeEquiv (rs.map M3.transpose)
+    let m := length2meshOf ℓ len (some rs)
+    (e.x = true → m.y = m.z) ∧ (e.y = true → m.z = m.x) ∧ (e.z = true → m.x = m.y) := by
+  intro e m
+  obtain ⟨a, b, c⟩ := alignMesh_symmetric ht ⟨rint (ℓ.x * len), rint (ℓ.y * len), rint (ℓ.z * len)⟩
+  simp only [m, length2meshOf, length2mesh]
+  refine ⟨fun h => ?_, fun h => ?_, fun h => ?_⟩
+  · rw [a h]
+  · rw [b h]
+  · rw [c h]
+
+/-- consequence: the length-specified mesh always has the mesh symmetry `_has_mesh_symmetry` asks for -/
+theorem length2mesh_has_mesh_symmetry (ℓ : V3 Rat) (len : Rat) (rs : List M3)
+    (ht : FlagsTransitive (latticeEquiv (rs.map M3.transpose))) :
+    hasMeshSymmetry (length2meshOf ℓ len (some rs)) (some rs) = true := by
+  obtain ⟨a, b, c⟩ := length2mesh_symmetric ℓ len rs ht
+  unfold hasMeshSymmetry
+  simp only
+  cases hx : (latticeEquiv (rs.map M3.transpose)).x <;> cases hy : (latticeEquiv (rs.map M3.transpose)).y <;>
+    cases hz : (latticeEquiv (rs.map M3.transpose)).z <;> simp_all
+
 /-! ### phonon state moments -/
 
 theorem weightedSum_ones {K : Type} [CommSemiring K] (l : List K) :
@@ -258,6 +378,8 @@ theorem generic_shift_spec_fixed : GenericShiftSpec gridPointsFixed := by
 /-! ### non-vacuity -/
 
 example : extractIr [0, 0, 2, 2, 0] = some ([0, 2], [3, 2]) := by decide
+example : (bzRelocate ⟨⟨1, 0, 0⟩, ⟨0, 1, 0⟩, ⟨0, 0, 1⟩⟩ M3.one (1 / 100) ⟨3 / 4, 1 / 2, 0⟩).toOption.map (·.shift) = some ⟨0, 0, 0⟩ := by
+  decide +kernel
 example : moment 2 (0 : Rat) 10 [1, 3] [[1, 2], [3, 4]] ≤ 10 ∧ 10 ≤ moment 2 (0 : Rat) 10 [1, 3] [[1, 2], [3, 4]] := by decide +kernel
 /-- a real reduction: 2×2×2 Γ-centred mesh, operation list {1, x↔y}: 8 points ↦ 6 -/
 example : (⟨⟨2, 2, 2⟩, ⟨false, false, false⟩⟩ : Mesh).irTable
@@ -281,6 +403,14 @@ end PhononModel.C09
 #print axioms PhononModel.C09.mesh_sum_reduced_eq_full
 #print axioms PhononModel.C09.valid_image_spec
 #print axioms PhononModel.C09.reduced_eq_full_of_invariant
+#print axioms PhononModel.C09.bz_relocation_is_lattice_translation
+#print axioms PhononModel.C09.bz_relocation_shortest_in_window
+#print axioms PhononModel.C09.bz_relocation_total
+#print axioms PhononModel.C09.bz_weighted_sum_unchanged
+#print axioms PhononModel.C09.length2mesh_ge_one
+#print axioms PhononModel.C09.length2mesh_mono
+#print axioms PhononModel.C09.length2mesh_symmetric
+#print axioms PhononModel.C09.length2mesh_has_mesh_symmetry
 #print axioms PhononModel.C09.moment_reduced_eq_full
 #print axioms PhononModel.C09.shift2boolean_cases
 #print axioms PhononModel.C09.shift2boolean_default
